@@ -12,7 +12,7 @@ def run(ctx, res):
     for rec in d["records"]:
         # retain subtracts the *recorded* size of every entry it removes: "current_size reflects the removals" therefore also
         # rests on every other operation keeping the recorded sizes exact (the C02 invariant at all exits)
-        if (rec["key"].startswith("retain:") and rec["prop"] in ("C01", "C02", "C05", "C16")) or \
+        if (rec["key"].startswith("retain:") and rec["prop"] in ("C01", "C02", "C05", "C07", "C13", "C16")) or \
                 (rec["prop"] == "C02" and ":exit[" in rec["key"]):
             res.count("C15 E3 obligations")
             res.oblige(rec["desc"], rec["ok"], detail=rec.get("detail"), key="C15.E3:%s" % rec["key"], loc=rec["loc"],
